@@ -465,6 +465,29 @@ def run(chk, tier):
                 else:
                     cap = int(mm[0].group(1))
             inst = 'closure:%s' % short(path)
+            rpath = path         # the closure whose captured hop restricts the entries
+            if (not good or cap is None) and fn.get('parent'):
+                # the restriction may sit in a separate `.filter(|entry| entry.hops.contains(&hop.ttl()))` in front of the `.map(..)` that reads the fields:
+                # every trace of the parent that applies this closure applies it to `Iterator::filter(_, P)` and P returns exactly that containment
+                preds = set()
+                applied = 0
+                for o in tr.of(fn['parent']):
+                    for e in o.st.events:
+                        if e[0] != 'call' or not any(isinstance(a, tuple) and a[0] == 'closure' and a[1] == path for a in e[7]):
+                            continue
+                        applied += 1
+                        rcv = e[7][0]
+                        if re.search(r'Iterator::map$', e[1]) and isinstance(rcv, tuple) and rcv[0] == 'term' and re.search(r'Iterator::filter$', rcv[1]) and \
+                                len(rcv[2]) == 2 and isinstance(rcv[2][1], tuple) and rcv[2][1][0] == 'closure':
+                            preds.add(rcv[2][1][1])
+                        else:
+                            preds.add(None)
+                if applied and len(preds) == 1 and None not in preds:
+                    pp = next(iter(preds))
+                    pv = {vshow(o.value) for o in tr.of(pp) if o.kind == 'return'}
+                    pm = [re.fullmatch(r'call:slice::contains\(p1\.hops, call:Hop::ttl\(env\.(\d+)\)\)', v_) for v_ in pv]
+                    if pv and all(pm) and len({m.group(1) for m in pm}) == 1 and all(o.kind == 'return' for o in tr.of(pp)):
+                        good, cap, rpath = True, int(pm[0].group(1)), pp
             if not good or cap is None:
                 chk.fail('R3', inst, fn_loc(fn), '%s reads MapEntry fields %s of entries that are not restricted to those containing the captured hop\'s ttl' % (short(path), sorted(flds)), key='R3|closure|%s' % short(path))
                 continue
@@ -482,9 +505,10 @@ def run(chk, tier):
                     if e[0] != 'call':
                         continue
                     if any(contains_closure(a, path) for a in e[7]):
-                        cv = [find_closure(a, path) for a in e[7]]
-                        cv = [c_ for c_ in cv if c_ is not None][0]
-                        x = vshow(cv[2][cap])
+                        cv = [find_closure(a, rpath) for a in e[7]]
+                        cv = [c_ for c_ in cv if c_ is not None]
+                        if cv:
+                            x = vshow(cv[0][2][cap])
                         if not ADAPT.search(e[1]):
                             consumed = True
                 for a, v, _ in o.st.decisions:
